@@ -51,6 +51,14 @@ def World.setLoader (w : World) (i : Nat) (l : Loader) : World := { w with loade
 def mkWorld (path : Path) (dirs : List Path) : World :=
   { path := path, fs := mkFS dirs, loaders := List.replicate 3 (Loader.new path) }
 
+def cfgHost : Bytes := str "cfg.host:443"
+
+/-- what a started client holds: `C<enc>:<key>/<key id>/<salt>/<address>`, `Cerr:<class>` -/
+def showClient : Outcome Client → String
+  | .ok c => s!"C{if c.encrypted then 1 else 0}:{showBytes c.authKey}/{showBytes c.authKeyHash}/{c.serverSalt}/{showBytes c.addr}"
+  | .err e => "Cerr:" ++ e
+  | .panic q => "panic:" ++ q
+
 /-- one item of a history; `none` = ill-formed -/
 def runItem (w : World) (t : String) : Option (World × String) :=
   match t.splitOn ":" with
@@ -69,6 +77,16 @@ def runItem (w : World) (t : String) : Option (World × String) :=
   | ["F"] =>
     let (_, o) := (Loader.new w.path).load w.fs
     some (w, showRes o)
+  | ["C", i] => do
+    -- `NewMTProto(Config{SessionStorage: loader i, ServerHost: cfgHost})`: the loader's `Load` runs (and fills its
+    -- cache), the client takes over what it returned
+    let i ← i.toNat?
+    if i ≥ 3 then none else
+    let (l, _) := (w.loader i).load w.fs
+    pure (w.setLoader i l, showClient (newClient (w.loader i) w.fs cfgHost))
+  | ["H"] =>
+    -- sessions and clients are values in the model: what was handed out stays what it was
+    some (w, "held=same")
   | ["X", content, m] => do
     let c ← parseBytes? content
     let m ← m.toNat?
@@ -94,8 +112,6 @@ def prefixClasses (data : Bytes) : List (String × Nat) :=
   ["ok", "syntax", "type", "b64key", "b64hash", "b64salt", "panic"].filterMap fun c =>
     let n := (outs.filter (· == c)).length
     if n = 0 then none else some (c, n)
-
-def cfgHost : Bytes := str "cfg.host:443"
 
 def handle : List String → String
   | ["c12.b64", b] =>
